@@ -69,17 +69,22 @@ type Doc struct {
 }
 
 type Input struct {
-	Kind string `json:"kind"`
-	Doc  Doc    `json:"doc"`
-	Rx   string `json:"rx"`
-	Text string `json:"text"`
+	Kind  string `json:"kind"`
+	Doc   Doc    `json:"doc"`
+	Other *Doc   `json:"other"`
+	Rx    string `json:"rx"`
+	Text  string `json:"text"`
 }
 
 type Obs struct {
-	OkStruct   bool   `json:"okStruct"`
-	OkJson     bool   `json:"okJson"`
-	OkVerifier bool   `json:"okVerifier"`
-	Levels     [][]KV `json:"levels"`
+	OkStruct         bool   `json:"okStruct"`
+	OkRepeat         []bool `json:"okRepeat"`
+	OkJson           bool   `json:"okJson"`
+	OkVerifier       bool   `json:"okVerifier"`
+	OkPair           bool   `json:"okPair"`
+	OkNew            bool   `json:"okNew"`
+	OkNewWithOptions bool   `json:"okNewWithOptions"`
+	Levels           [][]KV `json:"levels"`
 }
 
 // ---- abstract documents before concretisation --------------------------------------------
@@ -151,18 +156,52 @@ func levelObs(sv trustpolicy.SignatureVerification) []KV {
 	return out
 }
 
-// observe runs the three acceptance paths for one document.
-func observe(d doc) Obs {
-	o := Obs{Levels: [][]KV{}}
+func buildOCI(d doc) *trustpolicy.OCIDocument {
+	pd := &trustpolicy.OCIDocument{Version: d.version}
+	for _, s := range d.stmts {
+		pd.TrustPolicies = append(pd.TrustPolicies, trustpolicy.OCITrustPolicy{Name: s.name, SignatureVerification: sigVer(s),
+			TrustStores: append([]string(nil), s.stores...), TrustedIdentities: append([]string(nil), s.ids...), RegistryScopes: append([]string(nil), s.scopes...)})
+	}
+	return pd
+}
+
+func buildBlob(d doc) *trustpolicy.BlobDocument {
+	pd := &trustpolicy.BlobDocument{Version: d.version}
+	for _, s := range d.stmts {
+		pd.TrustPolicies = append(pd.TrustPolicies, trustpolicy.BlobTrustPolicy{Name: s.name, SignatureVerification: sigVer(s),
+			TrustStores: append([]string(nil), s.stores...), TrustedIdentities: append([]string(nil), s.ids...), GlobalPolicy: s.global})
+	}
+	return pd
+}
+
+// fixed documents an object holds before it is overwritten with the document under test
+func fixedDoc(kind string, valid bool) doc {
+	d := doc{kind: kind, version: "1.0", stmts: []stmt{{name: "fixed", level: "strict", override: map[string]string{},
+		stores: []string{"ca:fixed"}, ids: []string{"*"}, scopes: []string{"fixed.example/repo"}}}}
+	if !valid {
+		d.version = "2.0"
+	}
+	return d
+}
+
+// observe runs every acceptance route for one document: Validate() on the struct (twice, and on
+// objects that held and validated another document before), Validate() after a JSON round trip,
+// verifier.NewVerifierWithOptions alone and together with `other` (a document of the other kind,
+// may be nil), and the deprecated constructors.
+func observe(d doc, other *doc) Obs {
+	o := Obs{Levels: [][]KV{}, OkRepeat: []bool{}}
 	var svs []trustpolicy.SignatureVerification
 	switch d.kind {
 	case "oci":
-		pd := &trustpolicy.OCIDocument{Version: d.version}
-		for _, s := range d.stmts {
-			pd.TrustPolicies = append(pd.TrustPolicies, trustpolicy.OCITrustPolicy{Name: s.name, SignatureVerification: sigVer(s),
-				TrustStores: s.stores, TrustedIdentities: s.ids, RegistryScopes: s.scopes})
-		}
+		pd := buildOCI(d)
 		o.OkStruct = pd.Validate() == nil
+		o.OkRepeat = append(o.OkRepeat, pd.Validate() == nil)
+		for _, before := range []bool{true, false} {
+			obj := buildOCI(fixedDoc("oci", before))
+			_ = obj.Validate()
+			*obj = *buildOCI(d)
+			o.OkRepeat = append(o.OkRepeat, obj.Validate() == nil)
+		}
 		raw, err := json.Marshal(pd)
 		if err != nil {
 			panic(err)
@@ -178,16 +217,30 @@ func observe(d doc) Obs {
 		}
 		_, err = verifier.NewVerifierWithOptions(noStore{}, verifier.VerifierOptions{OCITrustPolicy: &fresh})
 		o.OkVerifier = err == nil
+		var ob *trustpolicy.BlobDocument
+		if other != nil {
+			ob = buildBlob(*other)
+		}
+		// the document object is the one validated above (a pointer reused across constructions)
+		_, err = verifier.NewVerifierWithOptions(noStore{}, verifier.VerifierOptions{OCITrustPolicy: pd, BlobTrustPolicy: ob})
+		o.OkPair = err == nil
+		_, err = verifier.New(pd, noStore{}, nil)
+		o.OkNew = err == nil
+		_, err = verifier.NewWithOptions(pd, noStore{}, nil, verifier.VerifierOptions{BlobTrustPolicy: ob})
+		o.OkNewWithOptions = err == nil
 		for _, p := range pd.TrustPolicies {
 			svs = append(svs, p.SignatureVerification)
 		}
 	case "blob":
-		pd := &trustpolicy.BlobDocument{Version: d.version}
-		for _, s := range d.stmts {
-			pd.TrustPolicies = append(pd.TrustPolicies, trustpolicy.BlobTrustPolicy{Name: s.name, SignatureVerification: sigVer(s),
-				TrustStores: s.stores, TrustedIdentities: s.ids, GlobalPolicy: s.global})
-		}
+		pd := buildBlob(d)
 		o.OkStruct = pd.Validate() == nil
+		o.OkRepeat = append(o.OkRepeat, pd.Validate() == nil)
+		for _, before := range []bool{true, false} {
+			obj := buildBlob(fixedDoc("blob", before))
+			_ = obj.Validate()
+			*obj = *buildBlob(d)
+			o.OkRepeat = append(o.OkRepeat, obj.Validate() == nil)
+		}
 		raw, err := json.Marshal(pd)
 		if err != nil {
 			panic(err)
@@ -203,6 +256,16 @@ func observe(d doc) Obs {
 		}
 		_, err = verifier.NewVerifierWithOptions(noStore{}, verifier.VerifierOptions{BlobTrustPolicy: &fresh})
 		o.OkVerifier = err == nil
+		var oo *trustpolicy.OCIDocument
+		if other != nil {
+			oo = buildOCI(*other)
+		}
+		_, err = verifier.NewVerifierWithOptions(noStore{}, verifier.VerifierOptions{OCITrustPolicy: oo, BlobTrustPolicy: pd})
+		o.OkPair = err == nil
+		_, err = verifier.NewWithOptions(nil, noStore{}, nil, verifier.VerifierOptions{BlobTrustPolicy: pd})
+		o.OkNew = err == nil
+		_, err = verifier.NewWithOptions(oo, noStore{}, nil, verifier.VerifierOptions{BlobTrustPolicy: pd})
+		o.OkNewWithOptions = err == nil
 		for _, p := range pd.TrustPolicies {
 			svs = append(svs, p.SignatureVerification)
 		}
@@ -211,6 +274,27 @@ func observe(d doc) Obs {
 		for _, sv := range svs {
 			o.Levels = append(o.Levels, levelObs(sv))
 		}
+	}
+	return o
+}
+
+// observeGuards: Validate() of nil documents and the constructors without any document.
+func observeGuards(rx string) Obs {
+	o := Obs{Levels: [][]KV{}, OkRepeat: []bool{}}
+	switch rx {
+	case "no-documents":
+		var po *trustpolicy.OCIDocument
+		var pb *trustpolicy.BlobDocument
+		o.OkStruct = po.Validate() == nil // Validate() of a nil document
+		o.OkJson = pb.Validate() == nil
+		_, err := verifier.NewVerifierWithOptions(noStore{}, verifier.VerifierOptions{})
+		o.OkVerifier = err == nil
+		_, err = verifier.NewVerifierWithOptions(noStore{}, verifier.VerifierOptions{OCITrustPolicy: po, BlobTrustPolicy: pb})
+		o.OkPair = err == nil
+		_, err = verifier.New(nil, noStore{}, nil)
+		o.OkNew = err == nil
+		_, err = verifier.NewWithOptions(nil, noStore{}, nil, verifier.VerifierOptions{})
+		o.OkNewWithOptions = err == nil
 	}
 	return o
 }
@@ -533,7 +617,7 @@ var badScopes = []string{"", "registry.example.com", "/repo", "registry.example.
 	"reg.example.com:80a/repo", "reg_x.example.com/repo", "reg.example.com/a___b", "reg.example.com/a._b", "reg.example.com/-a", "reg.example.com/a-", "reg.example.com/a.", "reg.example.com/ä",
 	"reg.example.com/repo\n", "reg.example.com /repo", "é/repo", "*a"}
 
-var badStores = []string{"", "ca", "ca:", ":name", "CA:name", "x509:name", "ca:.", "ca:..", "ca:a/b", "ca:a:b", "ca:a b", "ca:é", "ca :name", " ca:name", "ca:name\n", "tsa:../x", "signingauthority:x", "ca:a\\b", "ca:*"}
+var badStores = []string{"ca:ok:..", "ca:good:bad/name", "tsa:x:y:z", "ca::name", "signingAuthority:a:", "", "ca", "ca:", ":name", "CA:name", "x509:name", "ca:.", "ca:..", "ca:a/b", "ca:a:b", "ca:a b", "ca:é", "ca :name", " ca:name", "ca:name\n", "tsa:../x", "signingauthority:x", "ca:a\\b", "ca:*"}
 
 var operators = []operator{
 	{"version", func(g *gen, d *doc) bool {
@@ -835,6 +919,19 @@ var operators = []operator{
 		}
 		return true
 	}},
+	{"two-wildcard-statements", func(g *gen, d *doc) bool {
+		if d.kind != "oci" {
+			return false
+		}
+		if len(d.stmts) < 2 {
+			wf := false
+			d.stmts = append(d.stmts, g.validStatement(d.kind, len(d.stmts), map[string]bool{"*": true}, &wf))
+		}
+		i := g.n(len(d.stmts))
+		j := (i + 1 + g.n(len(d.stmts)-1)) % len(d.stmts)
+		d.stmts[i].scopes, d.stmts[j].scopes = []string{"*"}, []string{"*"}
+		return true
+	}},
 	{"two-global", func(g *gen, d *doc) bool {
 		if d.kind != "blob" {
 			return false
@@ -1080,7 +1177,8 @@ func (g *gen) regexCases(domainRe, repoRe *regexp.Regexp) {
 		if !utf8.ValidString(text) {
 			return
 		}
-		c.Emit(Input{Kind: "regex", Doc: Doc{Statements: []Statement{}}, Rx: rx, Text: text}, Obs{OkStruct: ok, OkJson: ok, OkVerifier: ok, Levels: [][]KV{}})
+		c.Emit(Input{Kind: "regex", Doc: Doc{Statements: []Statement{}}, Rx: rx, Text: text},
+			Obs{OkStruct: ok, OkRepeat: []bool{}, OkJson: ok, OkVerifier: ok, OkPair: ok, OkNew: ok, OkNewWithOptions: ok, Levels: [][]KV{}})
 		if ok {
 			c.Count("regex/" + rx + "/match")
 		} else {
@@ -1145,13 +1243,40 @@ func Run(c *common.Ctx) error {
 		return err
 	}
 
-	emitDoc := func(d doc, tag string) {
+	otherKind := map[string]string{"oci": "blob", "blob": "oci"}
+	// a document of the other kind to hand to the constructors together with the one under test
+	pickOther := func(kind string) *doc {
+		ok := otherKind[kind]
+		var d doc
+		switch r := g.n(10); {
+		case r < 4:
+			return nil
+		case r < 6:
+			d = g.validDoc(ok)
+		case r < 9:
+			d = g.validDoc(ok)
+			for try := 0; try < 4; try++ {
+				if applyOp(operators[g.n(len(operators))], g, &d) {
+					break
+				}
+			}
+		default:
+			d = g.randomDoc(ok)
+		}
+		return &d
+	}
+	emitPair := func(d doc, other *doc, tag string) {
 		in, valid := abstract(d)
+		if other != nil {
+			oin, ovalid := abstract(*other)
+			in.Other = &oin.Doc
+			valid = valid && ovalid
+		}
 		if !valid {
 			c.Count("skipped/not-utf8")
 			return
 		}
-		o := observe(d)
+		o := observe(d, other)
 		c.Emit(in, o)
 		verdict := "rejected"
 		if o.OkStruct {
@@ -1159,6 +1284,33 @@ func Run(c *common.Ctx) error {
 		}
 		c.Count(d.kind + "/" + verdict)
 		c.Count("origin/" + tag + "/" + verdict)
+		switch {
+		case other == nil:
+			c.Count("pair/alone")
+		case o.OkPair:
+			c.Count("pair/" + verdict + "+other/verifier-built")
+		default:
+			c.Count("pair/" + verdict + "+other/verifier-refused")
+		}
+	}
+	emitDoc := func(d doc, tag string) { emitPair(d, pickOther(d.kind), tag) }
+
+	// the constructor guards, and every (valid | invalid) x (valid | invalid | absent) pair of fixed documents
+	for _, kind := range []string{"oci", "blob"} {
+		for _, v := range []bool{true, false} {
+			emitPair(fixedDoc(kind, v), nil, "fixed-pair")
+			for _, w := range []bool{true, false} {
+				o := fixedDoc(otherKind[kind], w)
+				emitPair(fixedDoc(kind, v), &o, "fixed-pair")
+			}
+		}
+	}
+	{
+		in, _ := abstract(fixedDoc("oci", true))
+		in.Kind, in.Rx = "ctor", "no-documents"
+		in.Doc = Doc{Statements: []Statement{}}
+		c.Emit(in, observeGuards("no-documents"))
+		c.Count("ctor/no-documents")
 	}
 
 	// fixed witnesses: documents of the repaired defects and of the readings chosen for the property
@@ -1228,6 +1380,6 @@ func Run(c *common.Ctx) error {
 
 	g.regexCases(domainRe, repoRe)
 
-	c.Note("documents: grammar of valid OCI and blob documents; %d operators (one per rule + 2 benign) applied singly and in every ordered pair; random assembly from good/bad fragment pools; each document through struct Validate, JSON round trip + Validate, verifier.NewVerifierWithOptions; identities carry go-ldap's ParseDN answer. regex: exhaustive short words over small alphabets + grammar-directed and mutated strings against Go regexp compiled from the source text of the tree under test (file.IsValidFileName called directly; scope through a one-statement document).", len(operators))
+	c.Note("documents: grammar of valid OCI and blob documents; %d operators (one per rule + 2 benign) applied singly and in every ordered pair; random assembly from good/bad fragment pools; each document through struct Validate, JSON round trip + Validate, verifier.NewVerifierWithOptions alone; constructors also with a second document of the other kind (absent / valid / edited / random) and through the deprecated New / NewWithOptions; Validate() repeated on the same object and on objects that validated another document before; nil documents; identities carry go-ldap's ParseDN answer. regex: exhaustive short words over small alphabets + grammar-directed and mutated strings against Go regexp compiled from the source text of the tree under test (file.IsValidFileName called directly; scope through a one-statement document).", len(operators))
 	return nil
 }
